@@ -155,6 +155,7 @@ def composite_roundtrip(kind, k):
             return
         H.cover("encoded")
         start = 0
+        appended = True
         try:
             result = codec.decode(bytes(pdu))
         except OdxError:
@@ -164,6 +165,7 @@ def composite_roundtrip(kind, k):
         consumed_all = None
     else:
         msg = H.bytearray("pdu_before")
+        msg0 = H.snapshot(msg)
         cur = H.int("cursor", 0)
         origin = H.int("origin", 0)
         H.assume(H.And(origin <= cur, len(msg) <= cur))
@@ -188,8 +190,10 @@ def composite_roundtrip(kind, k):
                 H.And(ds.cursor_byte_position == es.cursor_byte_position, ds.origin_byte_position == origin))
         if kind == "structure_bytesize":
             H.check("C01,C08:byte-size-structure-occupies-exactly-byte-size-bytes",
-                    H.And(es.cursor_byte_position == cur + codec.byte_size, len(pdu) >= cur + codec.byte_size))
+                    H.And(es.cursor_byte_position == cur + codec.byte_size,
+                          H.Or(codec.byte_size == 0, len(pdu) >= cur + codec.byte_size)))
         start = cur
+        appended = len(msg0) == cur
     H.check("C01:every-child-decoded-exactly-once", H.And([p.decoded == 1 for p in params]))
     H.check("C01:decoded-values-are-the-encoded-values", H.eq(result, expected))
     if kind in ("request", "response"):
@@ -203,7 +207,9 @@ def composite_roundtrip(kind, k):
         # description and outside the envelope)
         inside = True if kind != "structure_bytesize" else H.And(
             [p.token[1] + p.token[5] <= start + codec.byte_size for p in params])
-        H.check("C08:static-bit-length-is-the-encoded-size", H.implies(inside, 8 * (len(pdu) - start) == static))
+        # (stated for an object appended at the end of the PDU: then the growth of the PDU is the size of the object)
+        H.check("C08:static-bit-length-is-the-encoded-size",
+                H.implies(H.And(inside, appended), 8 * (len(pdu) - start) == static))
     H.check("C08:static-length-is-known-iff-all-children-are-static",
             (static is not None) == (all(p.static_len is not None for p in params) or
                                      (kind == "structure_bytesize")))
